@@ -451,7 +451,8 @@ class Polyline:
         With `ret_new_indices=True`, also returns the new indices of the
         original vertices and the new indices of the inserted points.
         """
-        geometric_midpoints = np.average(self.segments[segment_indices], axis=1)
+        # `mean()`, unlike `np.average()`, copes with an empty set of segments.
+        geometric_midpoints = self.segments[segment_indices].mean(axis=1)
         return self.with_insertions(
             points=geometric_midpoints,
             indices=self.e[segment_indices][:, 1],
